@@ -10,11 +10,11 @@ VERIF = os.path.dirname(os.path.dirname(os.path.abspath(__file__)))
 TEXT = {
     'C01': ('Every apply event of every node is compared, at the step it happens, with the canonical sequence read off the committed log and with an '
             'executable reference model; node state digests are compared with the replay of the prefix after every apply, snapshot install and dump load. '
-            'Exploration: thousands of adversarial schedules per run of the check, not enumeration.', '6/C01'),
+            'Exploration: thousands of adversarial schedules per run of the check, not enumeration. Every 20th case runs real nodes over the real TCP transport code on simulated sockets (E2, file journals, connection faults, kills) with unique command ids instead: applied id sequences must be prefixes of one another, one leader per term, and after convergence SUCCESS(r) <=> the id is command #r of the common sequence.', '6/C01'),
     'C02': ('Every callback invocation is recorded; SUCCESS results are compared with the model result at the committed position, failure reasons that '
-            'promise "never applied" are checked against the committed log until the end of the quiet phase; duplicates are flagged when they are committed.', '6/C02'),
+            'promise "never applied" are checked against the committed log until the end of the quiet phase; duplicates are flagged when they are committed. Every 20th case runs real nodes over the real TCP transport code on simulated sockets (E2, file journals, connection faults, kills) with unique command ids instead: applied id sequences must be prefixes of one another, one leader per term, and after convergence SUCCESS(r) <=> the id is command #r of the common sequence.', '6/C02'),
     'C03': ('Leaders per term, votes per (voter, term) and leader completeness (against the map of committed positions and the term they were committed in) '
-            'are checked after every step of election-heavy schedules.', '6/C03'),
+            'are checked after every step of election-heavy schedules. Every 20th case runs real nodes over the real TCP transport code on simulated sockets (E2, file journals, connection faults, kills) with unique command ids instead: applied id sequences must be prefixes of one another, one leader per term, and after convergence SUCCESS(r) <=> the id is command #r of the common sequence.', '6/C03'),
     'C04': ('Majority backing is counted over the voters\' logs at the very step a commit index advances; commit/applied indexes are checked monotone per '
             'step; committed entries are checked immutable, still majority-backed after every truncation / log wipe, and log matching is checked on every journal append.', '6/C04'),
     'C05': ('Bounded-progress restatement of the liveness clause: after the fault phase a fair regime runs until one stable leader, equal applied indexes, '
